@@ -175,7 +175,7 @@ def request_octets(invoke, payload=b"\x05", seg_accepted=True):
 
 
 @meta(bounds="one serving stack whose application answers later; two raw peers; peer A sends a request (symbolic invoke ID), "
-             "then a symbolic mix of: A retransmits it (0..2 times), B sends a request with the SAME invoke ID; then the "
+             "then a symbolic mix of: A retransmits it (0..2 times, at once or one second apart), B sends a request with the SAME invoke ID; then the "
              "application answers every request it was handed, with distinguishable results",
       outside="segmented requests (C05), more than two peers, retransmission after the answer was sent (a new transaction by design)",
       stubs=STUBS)
@@ -192,13 +192,19 @@ def dup_request(d):
     retrans = d.int(0, 2, 'retransmissions')
     b_too = d.bool('peer_b_same_id')
     b_first = d.bool('b_before_retransmission')
+    # retransmissions follow at once or one second apart (a client's APDU timeout); the application has 5 s
+    gap = d.int(0, 1, 'seconds_between_retransmissions')
     if b_too and b_first:
         B.send(server.address, nl.frame(request_octets(inv, pb), True))
         w.settle()
     for _ in range(2):
         if _ < retrans:
+            if gap:
+                w.run(duration=gap)
             A.send(server.address, nl.frame(request_octets(inv, pa), True))
             w.settle()
+    if gap:
+        w.run(duration=gap)
     if b_too and not b_first:
         B.send(server.address, nl.frame(request_octets(inv, pb), True))
         w.settle()
@@ -241,6 +247,8 @@ def instances(tier):
     if q:
         out.append(Inst(ids, dict(k=3, npeers=2, chosen=False), budget=80))
         out.append(Inst(ids, dict(k=2, npeers=2, chosen=True), budget=80))
+        # three requests: the same application-chosen ID live toward two peers, then the stack numbers a third
+        out.append(Inst(ids, dict(k=3, npeers=2, chosen=True), budget=150))
         for kind in REPLY_KINDS:
             out.append(Inst(demux, dict(kind=kind), budget=60))
         out.append(Inst(dup_request, {}, budget=60))
